@@ -104,6 +104,7 @@ func c14Run(r *zsim.Run) {
 
 // one Pick -> latency -> Done cycle with the per-step invariants
 func c14Cycle(r *zsim.Run, p *p2cPicker, ids map[balancer.SubConn]int, bes []*c14Backend, o *zsim.Tape, who string) bool {
+	t0 := r.Now()
 	res, err := p.Pick(balancer.PickInfo{})
 	if err != nil {
 		r.Failf("pick-error", "Pick with %d ready connections failed: %v", len(bes), err)
@@ -141,6 +142,12 @@ func c14Cycle(r *zsim.Run, p *p2cPicker, ids map[balancer.SubConn]int, bes []*c1
 	if lat > b.maxLag {
 		b.maxLag = lat
 	}
+	defer func() {
+		// a task held inside Pick or Done (stall fault) stretches what the balancer can have measured
+		if el := r.Now() - t0; el > b.maxLag {
+			b.maxLag = el
+		}
+	}()
 	e, acceptable := b.outcome(r, o)
 	c := p.conns[id]
 	exclusive := b.busy == 0
@@ -179,6 +186,9 @@ func c14Cycle(r *zsim.Run, p *p2cPicker, ids map[balancer.SubConn]int, bes []*c1
 			return false
 		}
 	}
+	if el := r.Now() - t0; el > b.maxLag {
+		b.maxLag = el
+	}
 	// the estimate is a float64 EWMA truncated to integer nanoseconds: allow that rounding
 	if lag+time.Microsecond < b.minLag || lag > b.maxLag+time.Microsecond {
 		r.Failf("lag-out-of-range", "connection %d: latency estimate %v is outside the observed latencies [%v, %v]", id, lag, b.minLag, b.maxLag)
@@ -212,7 +222,12 @@ func c14Random(r *zsim.Run) {
 		}
 	}
 	callers := 1 + o.Intn(4)
-	r.Logf("random n=%d callers=%d backends=%v", n, callers, c14Desc(bes))
+	if o.Intn(4) == 0 {
+		// tasks may be held at scheduling points, e.g. between reading the clock and publishing it
+		r.StallOdds = zsim.Pick(o, 8, 30)
+		r.StallUnit = time.Millisecond
+	}
+	r.Logf("random n=%d callers=%d stalls=%d backends=%v", n, callers, r.StallOdds, c14Desc(bes))
 	if n >= 2 && callers > 1 {
 		r.NonTrivial()
 	}
